@@ -563,9 +563,8 @@ End VLoft.
 
 (* ---------- non-vacuity (exact rationals; the same numbers as the real code, see the report) ---------- *)
 From Coq Require Import QArith.
-From SplipyModel Require Import Extract.Exec.
-Definition ex_b : basis Q := q_mkBasis 3 [0; 0; 0; 1#2; 1; 1; 1]%Q 0.
-Definition ex_curve (s z : Q) : obj Q := q_mkObj [ex_b] [[0; 0; z]; [1; 2*s; z]; [3; -(2)*s; z]; [4; 0; z]]%Q 3 false.
+Definition ex_b : basis Q := (@mkBasis Q) 3 [0; 0; 0; 1#2; 1; 1; 1]%Q 0.
+Definition ex_curve (s z : Q) : obj Q := (@mkObj Q) [ex_b] [[0; 0; z]; [1; 2*s; z]; [3; -(2)*s; z]; [4; 0; z]]%Q 3 false.
 Definition ex_curves : list (obj Q) := [ex_curve 1 0; ex_curve (3#2) 1; ex_curve 1 3; ex_curve 2 4; ex_curve (1#2) 6]%Q.
 (* five sections, dist = [0,1,3,4,6]: the lofted surface at (1/3, dist_1) is section 1 at 1/3; some control points of the
    result (compare surface_factory.loft: 4.782051282051 = 373/78, -2.910256410256 = -227/78, 9.038461538462 = 235/26) *)
@@ -573,7 +572,7 @@ Example loft_example :
   match @loft Q NumQ (1#100000000000) ex_curves [0; 1; 3; 4; 6]%Q with
   | Ok o => map b_knots (o_bases o) = [[0; 0; 0; 1#2; 1; 1; 1]; [0; 0; 0; 0; 3; 6; 6; 6; 6]]%Q /\
             map (map Qred) (firstn 5 (skipn 5 (o_cps o))) = [[1; 2; 0]; [1; 373#78; 1]; [1; -227#78; 3]; [1; 235#26; 5]; [1; 1; 6]]%Q /\
-            (match q_obj_eval (1#100000000000) o [1#3; 1]%Q, q_obj_eval (1#100000000000) (nth 1 ex_curves (@dflt_obj Q)) [(1#3)%Q] with
+            (match (@obj_eval Q NumQ) (1#100000000000) o [1#3; 1]%Q, (@obj_eval Q NumQ) (1#100000000000) (nth 1 ex_curves (@dflt_obj Q)) [(1#3)%Q] with
              | Ok a, Ok b => map Qred a = map Qred b /\ map Qred a = [4#3; 4#3; 1]%Q | _, _ => False end)
   | Err _ => False
   end.
@@ -588,19 +587,16 @@ Example loft_example3 :
   end.
 Proof. vm_compute. repeat split; reflexivity. Qed.
 (* volume loft: four bilinear-by-quadratic sections *)
-Definition ex_bv : basis Q := q_mkBasis 2 [0; 0; 1; 1]%Q 0.
+Definition ex_bv : basis Q := (@mkBasis Q) 2 [0; 0; 1; 1]%Q 0.
 Definition ex_surf (s z : Q) : obj Q :=
-  q_mkObj [ex_b; ex_bv] [[0; -(3)*s; z]; [0; 3*s; z]; [1; 2*s-3*s; z]; [1; 2*s+3*s; z]; [3; -(2)*s-3*s; z]; [3; -(2)*s+3*s; z]; [4; -(3)*s; z]; [4; 3*s; z]]%Q 3 false.
+  (@mkObj Q) [ex_b; ex_bv] [[0; -(3)*s; z]; [0; 3*s; z]; [1; 2*s-3*s; z]; [1; 2*s+3*s; z]; [3; -(2)*s-3*s; z]; [3; -(2)*s+3*s; z]; [4; -(3)*s; z]; [4; 3*s; z]]%Q 3 false.
 Definition ex_surfs : list (obj Q) := [ex_surf 1 0; ex_surf (3#2) 1; ex_surf 1 3; ex_surf 2 4]%Q.
 Example vloft_example :
   match @vloft Q NumQ (1#100000000000) ex_surfs [0; 1; 3; 4]%Q with
   | Ok o => map (map Qred) (firstn 4 (skipn 12 (o_cps o))) = [[1; 5; 0]; [1; 40#3; 4#3]; [1; -25#9; 8#3]; [1; 10; 4]]%Q /\
-            (match q_obj_eval (1#100000000000) o [1#3; 1#4; 1]%Q, q_obj_eval (1#100000000000) (nth 1 ex_surfs (@dflt_obj Q)) [1#3; 1#4]%Q with
+            (match (@obj_eval Q NumQ) (1#100000000000) o [1#3; 1#4; 1]%Q, (@obj_eval Q NumQ) (1#100000000000) (nth 1 ex_surfs (@dflt_obj Q)) [1#3; 1#4]%Q with
              | Ok a, Ok b => map Qred a = map Qred b /\ map Qred a = [4#3; -11#12; 1]%Q | _, _ => False end)
   | Err _ => False
   end.
 Proof. vm_compute. repeat split; reflexivity. Qed.
 
-Print Assumptions loft_passes_through_sections.
-Print Assumptions loft_set_dimension_passes_through_sections.
-Print Assumptions vloft_passes_through_sections.
